@@ -134,6 +134,49 @@ def gen_border(g, rng, tm, d=0, s=0, t=0) -> dict:
     return o
 
 
+def stroke_pattern(g, rng, tm, t) -> None:
+    """Two or three strokes along ONE line in the arrangements that stress the bookkeeping of stroke runs: a later stroke
+    that begins before an existing run and ends inside it; a run overridden in part (in its own layer or from the
+    neighbouring cells' opposite side) and then continued, exactly where it ends, by a stroke of identical appearance."""
+    horizontal = tm.ncols >= 5 and (tm.nrows < 5 or rng.random() < 0.5)
+    n_along, n_across = (tm.ncols, tm.nrows) if horizontal else (tm.nrows, tm.ncols)
+    line = rng.randrange(n_across)
+    side = rng.choice(["top", "bottom"]) if horizontal else rng.choice(["left", "right"])
+    a0 = rng.randint(1, n_along - 4)
+
+    def stroke(start, length, look, side_=None, line_=None):
+        o = gen_border(g, rng, tm, t=t)
+        o["side"] = side_ or side
+        ln = line if line_ is None else line_
+        o["r"], o["c"] = (ln, start) if horizontal else (start, ln)
+        o["len"] = length
+        o["width"], o["color"], o["style"] = look
+        o["nota"] = "rc"
+        return o
+
+    look_a = (rng.choice([1.0, 2.0, 3.0]), [255, 0, 0], "solid")
+    look_b = (rng.choice([0.5, 4.0]), [0, 0, 255], rng.choice(["dashes", "dots"]))
+    kind = rng.choice(["before_into", "override_then_extend", "override_opposite_then_extend"])
+    la = rng.randint(2, 3)
+    g.emit(stroke(a0, la, look_a))
+    if kind == "before_into":
+        g.emit(stroke(a0 - 1, rng.randint(2, la), look_b))
+        return
+    if kind == "override_then_extend":
+        g.emit(stroke(a0 - 1, 2, look_b))
+    else:
+        opp = {"top": ("bottom", -1), "bottom": ("top", 1), "left": ("right", -1), "right": ("left", 1)}[side]
+        nl = line + opp[1]
+        if 0 <= nl < n_across:
+            g.emit(stroke(a0, 1, look_b, side_=opp[0], line_=nl))
+        else:
+            g.emit(stroke(a0 - 1, 2, look_b))
+    if a0 + la < n_along:
+        if rng.random() < 0.3:
+            g.emit({"op": "save", "d": 0, "slot": rng.choice(ALL_SLOTS)})
+        g.emit(stroke(a0 + la, min(rng.randint(1, 2), n_along - (a0 + la)), look_a))
+
+
 def gen(seed: int, tier: str, idx=None):
     rng0 = substream(seed, "swarm")
     cfg = {"property": PROPERTY, "aspects": ["grid", "names", "look"], "profile": "look", "_mix": {"s": 3, "i": 2, "f": 1, "b": 1}, "_long": False, "writes_in_bounds": True}
@@ -237,6 +280,8 @@ def gen(seed: int, tier: str, idx=None):
             if o["via"] == "write":
                 o["v"] = V.enc(g.value())
             g.emit(o)
+        elif kind == "border" and rng.random() < 0.2 and max(tm.nrows, tm.ncols) >= 5 and not tm.merges:
+            stroke_pattern(g, rng, tm, t)
         elif kind == "border":
             g.emit(gen_border(g, rng, tm, t=t))
             if rng.random() < 0.4:
@@ -257,6 +302,13 @@ def gen(seed: int, tier: str, idx=None):
                     if 0 <= nr_ < tm.nrows and 0 <= nc_ < tm.ncols:
                         o["side"], o["r"], o["c"] = opp[0], nr_, nc_
                 g.emit(o)
+        elif kind == "write" and tm.merges and rng.random() < 0.5:
+            # a value written into the top-left cell of a merged range that already carries strokes on its outer edges
+            m0 = rng.choice(tm.merges)
+            if rng.random() < 0.6:
+                g.emit(gen_border(g, rng, tm, t=t) | {"r": m0[0], "c": m0[1], "side": rng.choice(["top", "left"]), "len": 1})
+            g.emit({"op": "write", "d": 0, "s": 0, "t": t, "r": m0[0], "c": m0[1], "v": V.enc(g.value())})
+            g.emit({"op": "observe", "d": 0, "s": 0, "t": t, "kind": "border", "scope": "table", "r": 0, "c": 0})
         elif kind == "write":
             g.emit({"op": "write", "d": 0, "s": 0, "t": t, "r": g.index(tm.nrows), "c": g.index(tm.ncols), "v": V.enc(g.value())})
         elif kind == "observe":
